@@ -341,7 +341,7 @@ theorem restart_loses_lock_round_witness :
     (run {} (f1Events ++ [.crash 1000 0, .start])).lockedRound = 0 ∧
     (run {} (f1Events ++ [.crash 1000 0, .start])).locked = some (9, false) ∧
     (run {} (f1Events ++ [.crash 1000 0, .start] ++ f1Late)).locked = none ∧
-    Msg.vote ⟨0,1,.prevote,3,some 1200⟩ ∈ sentOf (run {} (f1Events ++ [.crash 1000 0, .start] ++ f1Late)).eff ∧
+    Msg.vote ⟨0,1,.prevote,3,some 1208⟩ ∈ sentOf (run {} (f1Events ++ [.crash 1000 0, .start] ++ f1Late)).eff ∧
     (run {} (f1Events ++ [.crash 1000 0, .start] ++ f1Late)).stuck = false := by
   decide +kernel
 
